@@ -223,7 +223,8 @@ var pathPool = []string{"/repo.git", "/org/repo.git", "/a/b/c", "/x.tgz", "/dl/x
 var subPoolA = []string{"", "modules/vpc", "a", "a/b/c", "..", "a/../b", "./a", "a//b", "a b", "a%20b", "ünï", "a#f", "a?b", "a/", "/a", "a.b/c_d-e", "a:b", "a@b", "a%41", "a+b", "a=b&c", "a;b", "~a", "a!b", "a'(b)*"}
 var queryPool = []string{"", "ref=main", "ref=v1.0", "ref=a&ref=b", "depth=1", "archive=tgz", "archive=tar.gz", "archive=zip", "archive=tgz&archive=tgz", "checksum=md5:abc", "a=b", "ref=main&x=y", "sshkey=abc", "REF=main", "ref=a%20b", "ref",
 	"ref=a+b", "ref=", "=x", "&", "ref=a&", "&ref=a", "ref=a;b", "ref=%zz", "archive=tar.gz&z=1&a=2", "archive=tgz&b=%2F&a=x y", "archive=tar.gz&archive=tgz", "a=1&archive=tgz&a=0", "archive=tgz&checksum=x", "checksum=", "archive", "archive=",
-	"ref=a=b", "ref=a?b", "ref=a/b", "ref=%41", "r%65f=x", "x=https://h//y", "archive=tgz&k=ü", "archive=tgz&k=%C3%BC", "archive=tgz&+= "}
+	"ref=a=b", "ref=a?b", "ref=a/b", "ref=%41", "r%65f=x", "x=https://h//y", "archive=tgz&k=ü", "archive=tgz&k=%C3%BC", "archive=tgz&+= ",
+	"archive=tar%2Egz", "%61rchive=tar.gz", "xarchive=tar.gz&archive=tar.gz", "myarchive=tar.gz&archive=tar.gz&b=1", "archive=tar.gz&xarchive=tar.gz", "archive=t%67z"}
 
 var goodLabel = []string{"example", "git", "a-b", "x1", "dl", "Example", "code"}
 var goodSeg = []string{"org", "repo", "a", "b.c", "mod_1", "v-2", "~u", "X"}
@@ -289,7 +290,7 @@ func genValidRemote(rng *Rng) (string, string) {
 		if sub != "" {
 			s += "//" + sub
 		}
-		s += "?" + rng.Pick([]string{"archive=tgz", "archive=tar.gz", "archive=tgz&token=x", "b=1&archive=tar.gz"})
+		s += "?" + rng.Pick([]string{"archive=tgz", "archive=tar.gz", "archive=tgz&token=x", "b=1&archive=tar.gz", "xarchive=tar.gz&archive=tar.gz", "archive=tar%2Egz"})
 		return s, sub
 	default: // shorthand
 		h := rng.Pick([]string{"github.com", "gitlab.com"})
